@@ -37,7 +37,7 @@ for pid in props:
         _n_rules = None
     if _n_rules:
         meta = dict(meta)
-        meta["level_text"] = meta["level_text"].rstrip() + f" As built the check carries {_n_rules} rules - each a further necessary condition of the same kind, listed with its instance count in the evidence file and in DESIGN.md Appendix D, and introduced round by round in DESIGN.md sections 0-0m."
+        meta["level_text"] = meta["level_text"].rstrip() + f" As built the check carries {_n_rules} rules - each a further necessary condition of the same kind, listed with its instance count in the evidence file and in DESIGN.md Appendix D, and introduced round by round in DESIGN.md sections 0-0o."
     checks.append(
         {
             "property_id": pid,
